@@ -1,4 +1,6 @@
 import SameVerif.Lemmas.HeaderFields
+import SameVerif.Lemmas.HeaderAccessors
+import SameVerif.Model.Message
 /-
   C06 — Header parsing accepts exactly the SAME grammar and exposes fields faithfully.
   Property theorems only.
@@ -126,5 +128,217 @@ theorem text_longest (s : List Byte) (h : Header) (hn : Header.new s = .ok h)
     exact callsignOf_greedy _ f.call f.rest g.call r hcs e' hg.call
   have := congrArg List.length hlocs
   omega
+
+end SameVerif.C06
+
+namespace SameVerif.C06
+open SameVerif
+
+/-! ## Accessors, re-parsing, line feeds, dispatch -/
+
+/-- the facts of `text_canonical`, for the fields `f` the matcher found -/
+theorem canonical_of_parse (s : List Byte) (h : Header) (hn : Header.new s = .ok h)
+    (f : Fields) (hp : parseFields s = some f) :
+    Fields.WF f ∧ h.text = f.render ∧ s = h.text ++ f.rest
+      ∧ h.offsetTime = 12 + 7 * f.locs.length ∧ h.parity = 0 ∧ h.voting = 0 := by
+  obtain ⟨f', hw, hp', ht, hs, ho, hpa, hv⟩ := text_canonical s h hn
+  rw [hp] at hp'
+  simp only [Option.some.injEq] at hp'
+  subst hp'
+  exact ⟨hw, ht, hs, ho, hpa, hv⟩
+
+section accessors
+variable (s : List Byte) (h : Header) (hn : Header.new s = .ok h)
+  (f : Fields) (hp : parseFields s = some f)
+include hn hp
+
+/-- `originator_str` is the matched originator code -/
+theorem accessor_org : h.originatorStr = .ok f.org := by
+  obtain ⟨hw, ht, _, _, _, _⟩ := canonical_of_parse s h hn f hp
+  exact originatorStr_render h f hw ht
+
+/-- `event_str` is the matched event code -/
+theorem accessor_evt : h.eventStr = .ok f.evt := by
+  obtain ⟨hw, ht, _, _, _, _⟩ := canonical_of_parse s h hn f hp
+  exact eventStr_render h f hw ht
+
+/-- `callsign` is the matched callsign -/
+theorem accessor_callsign : h.callsign = .ok f.call := by
+  obtain ⟨hw, ht, _, ho, _, _⟩ := canonical_of_parse s h hn f hp
+  exact callsign_render h f hw ht ho
+
+/-- `location_str` is the matched locations joined by `-` -/
+theorem accessor_locationStr : h.locationStr = .ok ([45].intercalate f.locs) := by
+  obtain ⟨hw, ht, _, ho, _, _⟩ := canonical_of_parse s h hn f hp
+  rw [← locText_eq_intercalate]
+  exact locationStr_render h f hw ht ho
+
+/-- `location_str_iter` yields the matched locations, all of them, in order -/
+theorem accessor_locations : h.locations = .ok f.locs := by
+  obtain ⟨hw, ht, _, ho, _, _⟩ := canonical_of_parse s h hn f hp
+  exact locations_render h f hw ht ho
+
+/-- `valid_duration_fields` is (hours, minutes) of the matched `TTTT` -/
+theorem accessor_duration :
+    h.validDurationFields = .ok (digitsVal (f.purge.take 2), digitsVal (f.purge.drop 2)) := by
+  obtain ⟨hw, ht, _, ho, _, _⟩ := canonical_of_parse s h hn f hp
+  exact validDurationFields_render h f hw ht ho
+
+/-- `issue_daytime_fields` is (day of year, hour, minute) of the matched `JJJHHMM` -/
+theorem accessor_issue :
+    h.issueDaytimeFields = .ok (digitsVal (f.issue.take 3), digitsVal ((f.issue.drop 3).take 2),
+      digitsVal (f.issue.drop 5)) := by
+  obtain ⟨hw, ht, _, ho, _, _⟩ := canonical_of_parse s h hn f hp
+  exact issueDaytimeFields_render h f hw ht ho
+
+/-- **Accessors are faithful.**  Every accessor of an accepted header returns exactly the field the
+    matcher found. -/
+theorem accessors :
+    h.originatorStr = .ok f.org ∧ h.eventStr = .ok f.evt ∧ h.callsign = .ok f.call
+    ∧ h.locationStr = .ok ([45].intercalate f.locs) ∧ h.locations = .ok f.locs
+    ∧ h.validDurationFields = .ok (digitsVal (f.purge.take 2), digitsVal (f.purge.drop 2))
+    ∧ h.issueDaytimeFields = .ok (digitsVal (f.issue.take 3), digitsVal ((f.issue.drop 3).take 2),
+        digitsVal (f.issue.drop 5)) :=
+  ⟨accessor_org s h hn f hp, accessor_evt s h hn f hp, accessor_callsign s h hn f hp,
+   accessor_locationStr s h hn f hp, accessor_locations s h hn f hp, accessor_duration s h hn f hp,
+   accessor_issue s h hn f hp⟩
+
+end accessors
+
+/-- **No accessor can panic** on an accepted header: no slice is out of bounds, every numeric parse
+    succeeds. -/
+theorem accessors_total (s : List Byte) (h : Header) (hn : Header.new s = .ok h) :
+    (∃ v, h.originatorStr = .ok v) ∧ (∃ v, h.eventStr = .ok v) ∧ (∃ v, h.callsign = .ok v)
+    ∧ (∃ v, h.locationStr = .ok v) ∧ (∃ v, h.locations = .ok v)
+    ∧ (∃ v, h.validDurationFields = .ok v) ∧ (∃ v, h.issueDaytimeFields = .ok v) := by
+  obtain ⟨f, _, hp, _⟩ := text_canonical s h hn
+  obtain ⟨h1, h2, h3, h4, h5, h6, h7⟩ := accessors s h hn f hp
+  exact ⟨⟨_, h1⟩, ⟨_, h2⟩, ⟨_, h3⟩, ⟨_, h4⟩, ⟨_, h5⟩, ⟨_, h6⟩, ⟨_, h7⟩⟩
+
+/-- **Re-parsing is the identity.**  The stored text of an accepted header is itself accepted and
+    yields an equal header (same text, same time offset, zero counters). -/
+theorem reparse (s : List Byte) (h : Header) (hn : Header.new s = .ok h) :
+    Header.new h.text = .ok h := by
+  obtain ⟨f, hw, hp, ht, hs, ho, hpa, hv⟩ := text_canonical s h hn
+  have hascii : s.all isAsciiByte = true := ((accepts_iff s).mp ⟨h, hn⟩).1
+  have ha : h.text.all isAsciiByte = true := by
+    rw [hs, List.all_append, Bool.and_eq_true] at hascii
+    exact hascii.1
+  have hpr := parseFields_render f hw
+  have hlen := render_length f hw
+  obtain ⟨text, off, par, vot⟩ := h
+  simp only at ht ho hpa hv ha
+  subst ht ho hpa hv
+  simp only [Header.new, ha, Bool.not_true, Bool.false_eq_true, ↓reduceIte, checkHeader, hpr]
+  rw [← hlen, List.take_length]
+
+/-- **No line feed.**  The stored text of an accepted header contains no LF byte. -/
+theorem text_no_lf (s : List Byte) (h : Header) (hn : Header.new s = .ok h) : (10 : Byte) ∉ h.text := by
+  obtain ⟨f, hw, _, ht, _⟩ := text_canonical s h hn
+  rw [ht]
+  exact render_no_lf f hw
+
+/-- `new_with_error_info` accepts exactly what `new` accepts; it changes the two counters only -/
+theorem newWithErrorInfo_ok (s : List Byte) (errs counts : List Nat) (h : Header) :
+    Header.newWithErrorInfo s errs counts = .ok h ↔
+      ∃ h0, Header.new s = .ok h0 ∧ h.text = h0.text ∧ h.offsetTime = h0.offsetTime
+        ∧ h.parity = ((errs.zip h0.text).map (·.1)).sum
+        ∧ h.voting = ((counts.zip h0.text).filter (fun p => !(p.1 < 3))).length := by
+  unfold Header.newWithErrorInfo Header.newWithErrors
+  cases hn : Header.new s with
+  | error e => simp
+  | ok h0 =>
+    simp only [Except.ok.injEq]
+    constructor
+    · rintro rfl; exact ⟨h0, rfl, rfl, rfl, rfl, rfl⟩
+    · rintro ⟨h1, he, h2, h3, h4, h5⟩
+      cases he
+      obtain ⟨t, o, p, v⟩ := h
+      simp only at h2 h3 h4 h5
+      subst h2 h3 h4 h5
+      rfl
+
+theorem newWithErrorInfo_error (s : List Byte) (errs counts : List Nat) (e : DecodeErr) :
+    Header.newWithErrorInfo s errs counts = .error e ↔ Header.new s = .error e := by
+  unfold Header.newWithErrorInfo Header.newWithErrors
+  cases hn : Header.new s <;> simp
+
+/-- **Dispatch of `TryFrom<(&[u8], &[u8], &[u8])>`.**  Invalid UTF-8 is `notAscii`; otherwise a
+    `ZCZC-` prefix defers to `new_with_error_info` (same header, same error); otherwise an `NN`
+    prefix is the end-of-message; otherwise the prefix is unrecognised. -/
+theorem dispatch (inp : List Byte) (errs counts : List Nat) :
+    (validUtf8 inp = false → Msg.tryFromBytes inp errs counts = .error .notAscii) ∧
+    (validUtf8 inp = true → startsWith inp litZCZC = true →
+      (∀ h, Msg.tryFromBytes inp errs counts = .ok (.som h)
+              ↔ Header.newWithErrorInfo inp errs counts = .ok h) ∧
+      (∀ e, Msg.tryFromBytes inp errs counts = .error e
+              ↔ Header.newWithErrorInfo inp errs counts = .error e) ∧
+      Msg.tryFromBytes inp errs counts ≠ .ok .eom) ∧
+    (validUtf8 inp = true → startsWith inp litZCZC = false → startsWith inp litNN = true →
+      Msg.tryFromBytes inp errs counts = .ok .eom) ∧
+    (validUtf8 inp = true → startsWith inp litZCZC = false → startsWith inp litNN = false →
+      Msg.tryFromBytes inp errs counts = .error .unrecognizedPrefix) := by
+  refine ⟨?_, ?_, ?_, ?_⟩
+  · intro hu; simp [Msg.tryFromBytes, hu]
+  · intro hu hz
+    simp only [Msg.tryFromBytes, hu, hz, Bool.not_true, Bool.false_eq_true, ↓reduceIte]
+    cases Header.newWithErrorInfo inp errs counts <;> simp
+  · intro hu hz hnn; simp [Msg.tryFromBytes, hu, hz, hnn]
+  · intro hu hz hnn; simp [Msg.tryFromBytes, hu, hz, hnn]
+
+/-- **Dispatch of `TryFrom<String>`**: as `dispatch`, without the UTF-8 test and with `new`. -/
+theorem dispatch_string (inp : List Byte) :
+    (startsWith inp litZCZC = true →
+      (∀ h, Msg.tryFromString inp = .ok (.som h) ↔ Header.new inp = .ok h) ∧
+      (∀ e, Msg.tryFromString inp = .error e ↔ Header.new inp = .error e) ∧
+      Msg.tryFromString inp ≠ .ok .eom) ∧
+    (startsWith inp litZCZC = false → startsWith inp litNN = true →
+      Msg.tryFromString inp = .ok .eom) ∧
+    (startsWith inp litZCZC = false → startsWith inp litNN = false →
+      Msg.tryFromString inp = .error .unrecognizedPrefix) := by
+  refine ⟨?_, ?_, ?_⟩
+  · intro hz
+    simp only [Msg.tryFromString, hz, ↓reduceIte]
+    cases Header.new inp <;> simp
+  · intro hz hnn; simp [Msg.tryFromString, hz, hnn]
+  · intro hz hnn; simp [Msg.tryFromString, hz, hnn]
+
+/-- the prefix tests of the dispatch, spelled out -/
+theorem dispatch_prefix (inp : List Byte) :
+    (startsWith inp litZCZC = true ↔ ∃ r, inp = [90, 67, 90, 67, 45] ++ r) ∧
+    (startsWith inp litNN = true ↔ ∃ r, inp = [78, 78] ++ r) :=
+  ⟨startsWith_iff inp litZCZC, startsWith_iff inp litNN⟩
+
+/-! ### Non-vacuity: "ZCZC-WXR-RWT-012345-567890+0030-1231200-KLOX/NWS-" followed by junk -/
+
+/-- "ZCZC-WXR-RWT-012345-567890+0030-1231200-KLOX/NWS-" -/
+def exText : List Byte :=
+  [90, 67, 90, 67, 45, 87, 88, 82, 45, 82, 87, 84, 45, 48, 49, 50, 51, 52, 53, 45, 53, 54, 55, 56, 57, 48,
+   43, 48, 48, 51, 48, 45, 49, 50, 51, 49, 50, 48, 48, 45, 75, 76, 79, 88, 47, 78, 87, 83, 45]
+
+/-- trailing bytes after the header: NUL, LF, "B-" -/
+def exTrail : List Byte := [0, 10, 66, 45]
+
+def exHeader : Header := ⟨exText, 26, 0, 0⟩
+
+/-- the fields the matcher finds in the example -/
+def exFields : Fields :=
+  { org := [87, 88, 82], evt := [82, 87, 84]
+    locs := [[48, 49, 50, 51, 52, 53], [53, 54, 55, 56, 57, 48]]
+    purge := [48, 48, 51, 48], issue := [49, 50, 51, 49, 50, 48, 48]
+    call := [75, 76, 79, 88, 47, 78, 87, 83], rest := exTrail }
+
+example : parseFields (exText ++ exTrail) = some exFields := by rfl
+example : Header.new (exText ++ exTrail) = .ok exHeader := by rfl
+example : exHeader.originatorStr = .ok [87, 88, 82] := by rfl                     -- "WXR"
+example : exHeader.eventStr = .ok [82, 87, 84] := by rfl                          -- "RWT"
+example : exHeader.locations = .ok [[48, 49, 50, 51, 52, 53], [53, 54, 55, 56, 57, 48]] := by
+  rfl                                                                             -- "012345", "567890"
+example : exHeader.callsign = .ok [75, 76, 79, 88, 47, 78, 87, 83] := by rfl      -- "KLOX/NWS"
+example : exHeader.validDurationFields = .ok (0, 30) := by rfl
+example : exHeader.issueDaytimeFields = .ok (123, 12, 0) := by rfl
+example : Header.new exHeader.text = .ok exHeader := by rfl
+example : Msg.tryFromString (exText ++ exTrail) = .ok (.som exHeader) := by rfl
+example : Msg.tryFromBytes (exText ++ exTrail) [] [] = .ok (.som exHeader) := by rfl
 
 end SameVerif.C06
